@@ -356,7 +356,9 @@ def _xroman(form):
 
 
 def xroman(num, form=0):
-    num, form = int(num), not isinstance(form, bool) and int(form or 0) or 0
+    if isinstance(form, (bool, np.bool_)):
+        form = 0 if form else 4  # TRUE is the classic form, FALSE simplified.
+    num, form = int(num), int(form or 0)
     if not (0 <= num < 4000 and 0 <= form <= 4):
         raise ValueError()
 
